@@ -1474,6 +1474,16 @@ def mutate_arg(ctx, a, kind):
     rng = ctx.rng
     if a[0] == "ts":
         t = a[1]
+        if t[0] == "tsb" and t[1] == 0 and rng.random() < 0.5:
+            fs = list(t[2])
+            if len(fs) >= 2 and rng.random() < 0.5:
+                fs[0], fs[1] = (fs[1][0], fs[0][1]), (fs[0][0], fs[1][1])      # swap two field NAMES, types stay in place
+            else:
+                j = rng.randrange(len(fs))
+                fs[j] = (fs[j][0] + 5, fs[j][1])                               # rename one field
+            return ("ts", ("tsb", 0, tuple(fs)))
+        if t[0] == "ts" and t[1][0] == "tup" and len(t[1][1]) >= 2 and rng.random() < 0.5:
+            return ("ts", ("ts", _spoil_tuple(rng, t[1])))
         r = rng.random()
         if r < 0.3:
             return ("ts", mk_ref(t) if t[0] != "ref" else t[1])
@@ -1489,6 +1499,8 @@ def mutate_arg(ctx, a, kind):
             return ("ts", ("tsb", 0, t[2]))          # the un-named twin of a named bundle
     elif a[0] == "sc":
         s = a[1]
+        if s[0] == "tup" and len(s[1]) >= 2 and rng.random() < 0.4:
+            return ("sc", _spoil_tuple(rng, s))
         r = rng.random()
         if r < 0.35 and s[0] == "a":
             return ("sc", gen_atom(rng))
@@ -1497,6 +1509,15 @@ def mutate_arg(ctx, a, kind):
         if r < 0.6 and s[0] == "lst":
             return ("sc", ("tup", (s[1], s[1])))
     return gen_arg(ctx, kind)
+
+
+def _spoil_tuple(rng, s):
+    """an almost homogeneous tuple: the first fields agree, a later one differs"""
+    xs = list(s[1])
+    other = ("a", 3) if xs[0] != ("a", 3) else ("a", 1)
+    if rng.random() < 0.5:
+        return ("tup", tuple(xs[:2]) + (other,))
+    return ("tup", (xs[0], xs[0], other))
 
 
 def enc_arg(a):
